@@ -1,47 +1,247 @@
 """C09 - compiled programs compute what their source means.
 Spec: Eval.tla - a big-step reference evaluator written from the language chapters (lexical scoping, capture at
 definition, early-bound direct calls, recursion, where chains, function values, |>, conditionals evaluating only the
-taken branch, string interpolation, structs matched by field name, lists).  G: TLC evaluates every generated program
-(MC_Eval.tla: a catalogue of definitions exercising captured/shadowed globals, argument order, recursion, where
-clauses, function values, permuted struct fields and lists; an optional redefinition; a generated final expression)
-and prints its value; the real compiler + VM must produce the same value (structural comparison: numbers exactly,
-field names and order, element order).
+taken branch, string interpolation, structs matched by field name, lists); Compile.tla - the bytecode compiler
+(constants table, slot selection, jump patching, call resolution, reversed struct fields, JoinString part count);
+VM.tla - the stack machine, one rule per opcode.
+MC: MC_VM.tla - for every generated program RunVM(Compile(p)) = Run(p) (differences are printed and classified),
+    all jumps patched/forward/on instruction boundaries, every Return in the root frame leaves exactly the globals
+    defined so far, frames balanced, no opcode without a rule.
+G:  TLC evaluates every generated program (MC_Eval.tla: a catalogue of definitions exercising captured/shadowed
+    globals, argument order, recursion, where clauses, function values, permuted struct fields and lists; an optional
+    redefinition; a generated final expression; MC_VM.tla adds tails with globals defined after calls, nested
+    conditionals, three parameters, ...) and prints its value; the real compiler + VM must produce the same value
+    (structural comparison: numbers exactly, field names and order, element order).
+J:  every generated program (and, thorough tier, every example file) runs with the opcode trace hook on; Trace_VM.tla
+    executes VM.tla on the bytecode DECODED from the real VM and must reproduce every executed opcode (chunk, ip,
+    opcode, stack depth, frame depth, frame pointer, top of the stack), the final stack and the result.  A program
+    the model does not reproduce is MODEL-DRIFT unless its final value differs from Eval's (then a violation).
+    The decoded bytecode of the generated programs is compared with Compile(p) (drift report only).
 """
 import json
 import os
 import shutil
+from concurrent.futures import ThreadPoolExecutor
 import nv
 
 PROP = "C09"
+LIST_FFI = ["head", "tail", "len", "cons", "cons_end"]          # Compile.tla: ListFnSeq (model numbering 0..4)
 
 
 def known_matcher(v, k):
     if k.get("signature", {}).get("kind") == "function-value-late-bound":
-        return v.get("kind") == "value-differs" and v.get("late_bound")
+        return v.get("kind") in ("value-differs", "model-vm-differs-from-eval", "trace-rejected-and-value-differs") and v.get("late_bound")
     return False
 
 
+def is_late_bound(variant, final):
+    # a function VALUE taken before its name was redefined, called afterwards
+    return variant in (2, 4) and "w_h" in final
+
+
+# ------------------------------------------------------------------------------------------------ J helpers
+def run_trace_tlc(path, timeout=1500):
+    """Trace_VM on one trace file -> (meta dict or None, list of BAD dicts)"""
+    res = nv.tlc("Trace_VM", "Trace_VM.cfg", workers=1, timeout=timeout, env={"TRACE": path},
+                 jvm=nv.TRACE_JVM + " -Xmx4g", want_tags=("BAD", "META"))
+    meta = res.cases.get("META", [None])[-1]
+    return meta, res.cases.get("BAD", []), res
+
+
+def normalise_real(code, base, ffi_names, main):
+    """decoded real instructions -> the numbering Compile.tla uses with ZeroBase"""
+    out = []
+    for ins in code:
+        op, a = ins["op"], list(ins["a"])
+        o = ins["o"] - (base["ip0"] if main else 0)
+        if op == "LoadConstant":
+            a = [a[0] - base["c0"]]
+        elif op == "GetUpvalue" or (op == "GetLocal" and main):
+            a = [a[0] - base["g0"]]
+        elif op == "Call":
+            a = [a[0] - base["f0"] + 1, a[1]]
+        elif op == "FFICallFunction":
+            name = ffi_names.get(a[0], "?")
+            a = [LIST_FFI.index(name) if name in LIST_FFI else name, a[1], a[2] - base["a0"]]
+        elif op == "CallCallable":
+            a = [a[0], a[1] - base["a0"]]
+        elif op == "BuildStructInstance":
+            a = [a[0] - base["s0"], a[1]]
+        out.append([o, op, a])
+    return out
+
+
+def compare_bytecode(case, cat, summ):
+    """Compile(p) (from the CASE / CATCODE lines) against the decoded real bytecode; returns a list of differences"""
+    dec, base = summ["decoded"], summ["base"]
+    ffi_names = {f["i"]: f["n"] for f in dec["ffi"]}
+    model_chunks = [("<main>", case["main"])] + [(c["n"], c["code"]) for c in cat["chunks"][1:]] + [(c["n"], c["code"]) for c in case["extra"]]
+    real_chunks = [("<main>", normalise_real(dec["main"], base, ffi_names, True))] + \
+                  [(c["n"], normalise_real(c["code"], base, ffi_names, False)) for c in dec["chunks"]]
+    diffs = []
+    if [n for n, _ in model_chunks] != [n for n, _ in real_chunks]:
+        return [{"what": "chunks", "model": [n for n, _ in model_chunks], "real": [n for n, _ in real_chunks]}]
+    mconst = {c["i"]: c["tx"] for c in case["consts"]}
+    rconst = {c["i"] - base["c0"]: c["tx"] for c in dec["consts"]}
+    numbering_only = True
+    for (name, mcode), (_, rcode) in zip(model_chunks, real_chunks):
+        m = [[i["o"], i["op"], list(i["a"])] for i in mcode]
+        if m == rcode:
+            continue
+        # modulo constant numbering: compare with the constants resolved to their text
+        def resolved(code, table):
+            return [[o, op, [table.get(a[0], "?")] if op == "LoadConstant" else a] for o, op, a in code]
+        if resolved(m, mconst) != resolved(rcode, rconst):
+            numbering_only = False
+        k = next((j for j in range(min(len(m), len(rcode))) if m[j] != rcode[j]), min(len(m), len(rcode)))
+        diffs.append({"what": "code", "chunk": name, "at": k, "model": m[k:k + 3], "real": rcode[k:k + 3]})
+    if not diffs and mconst != rconst:
+        diffs.append({"what": "constants", "model": sorted(mconst.items())[:6], "real": sorted(rconst.items())[:6]})
+    for d in diffs:
+        d["numbering_only"] = numbering_only
+    return diffs
+
+
+def j_stage(rep, tier, cases, cat_by_variant, d):
+    inp = os.path.join(d, "cases.ndjson")
+    tdir = os.path.join(d, "traces")
+    shutil.rmtree(tdir, ignore_errors=True)
+    nv.harness("nv-vm", ["vm-trace", "--cases", inp, "--out-dir", tdir, "--per-file", "9000", "--limit", "4000"])
+    summ = nv.read_ndjson_text(open(os.path.join(tdir, "gen_summary.ndjson")).read())
+    if len(summ) != len(cases):
+        raise nv.ToolError("nv-vm traced %d programs, expected %d" % (len(summ), len(cases)))
+    files = sorted(set(s["file"] for s in summ))
+    all_ops = json.loads(nv.harness("nv-vm", ["vm-ops"]).stdout)
+    op_counts = {}
+
+    # thorough: the example files
+    ex_summ, ex_files = [], []
+    if tier == "thorough":
+        edir = os.path.join(d, "examples")
+        shutil.rmtree(edir, ignore_errors=True)
+        nv.harness("nv-vm", ["vm-examples", "--dir", os.path.join(nv.REPO, "examples"), "--out-dir", edir,
+                             "--per-file", "12000", "--limit", "4000"])
+        ex_summ = nv.read_ndjson_text(open(os.path.join(edir, "ex_summary.ndjson")).read())
+        ex_files = sorted(set(s["file"] for s in ex_summ))
+
+    # binding self-test: corrupt one recorded field of one event -> must be reported at exactly that line
+    lines = open(files[0]).read().splitlines()
+    cut = max(i for i, x in enumerate(lines[:600]) if '"t":"E"' in x) + 1
+    lines = lines[:cut]
+    rets = [i for i, x in enumerate(lines) if '"t":"O"' in x and '"op":"Return"' in x]
+    victim = rets[min(len(rets) - 1, 11)]
+    e = json.loads(lines[victim])
+    e["d"] += 1
+    lines[victim] = json.dumps(e)
+    bad_path = os.path.join(d, "trace_corrupt.ndjson")
+    open(bad_path, "w").write("\n".join(lines) + "\n")
+
+    with ThreadPoolExecutor(max_workers=6) as ex:
+        futs = [ex.submit(run_trace_tlc, p) for p in files + ex_files + [bad_path]]
+        results = [f.result() for f in futs]
+    st_meta, st_bad, _ = results[-1]
+    ok = st_meta and st_meta["done"] and [b["line"] for b in st_bad] == [victim + 1]
+    rep.notes["selftest_J_corrupted_event_reported_at_line"] = [b["line"] for b in st_bad]
+    if not ok:
+        raise nv.ToolError("binding self-test failed: corrupted trace event at line %d, Trace_VM reported %s" % (victim + 1, st_bad[:2]))
+
+    by_id = {s["id"]: s for s in summ}
+    ops_validated = 0
+    for path, (meta, bad, res) in zip(files + ex_files, results[:-1]):
+        generated = path in files
+        if not meta or not meta["done"] or res.violated:
+            raise nv.ToolError("Trace_VM did not consume %s: %s\n%s" % (path, meta, res.stdout[-1500:]))
+        ops_validated += meta["ops"]
+        rep.add("traces_validated_against_impl", meta["progs"])
+        rep.add("j_programs_traced", meta["progs"])
+        rep.add("j_programs_not_decodable_after_rollback", meta["skipped"])
+        rep.tlc_stats(res, "Trace_VM " + os.path.basename(path))
+        for b in bad:
+            if generated:
+                s, c = by_id[b["id"]], cases[b["id"]]
+                want = c["res"]
+                impl_ok = s["outcome"] == "ok" and s["value"] == want
+                info = {"final": c["stmts"][-1], "variant": c["variant"], "why": b["why"], "event_line": b["line"], "step": b["step"],
+                        "model": b["want"], "impl": b["got"], "spec_value": want, "impl_value": s.get("value"), "trace_file": path}
+                if impl_ok:
+                    rep.add("model_drift_programs", 1)
+                    if rep.cov.get("model_drift_programs", 0) <= 5:
+                        print("MODEL-DRIFT: property=C09 VM.tla does not reproduce the opcode trace of `%s` (%s at step %s: model %s, "
+                              "implementation %s); the final value agrees with Eval.tla" % (
+                                  c["stmts"][-1], b["why"], b["step"], json.dumps(b["want"])[:300], json.dumps(b["got"])[:300]))
+                else:
+                    rep.violation(dict(info, kind="trace-rejected-and-value-differs", program_tail=c["stmts"][-3:],
+                                       late_bound=is_late_bound(c["variant"], c["stmts"][-1])), known_matcher)
+            else:
+                rep.add("model_drift_programs", 1)
+                print("MODEL-DRIFT: property=C09 VM.tla does not reproduce the opcode trace of example %s (%s at step %s: model %s, "
+                      "implementation %s)" % (b.get("label"), b["why"], b["step"], json.dumps(b["want"])[:300], json.dumps(b["got"])[:300]))
+    for s in summ + ex_summ:
+        for op, n in s["ops"].items():
+            op_counts[op] = op_counts.get(op, 0) + n
+    rep.add("evaluations", ops_validated)
+    rep.set("j_opcodes_validated", ops_validated)
+    rep.set("j_opcodes_executed_by_traced_programs", sum(op_counts.values()))
+    rep.set("op_variants_exercised", sorted(op_counts))
+    rep.set("op_variants_never_exercised", [o for o in all_ops if o not in op_counts])
+    if ex_summ:
+        rep.set("j_example_files", {"traced": len(ex_summ), "ok": sum(1 for s in ex_summ if s["outcome"] == "ok"),
+                                    "truncated_at_4000_opcodes": sorted(s["label"] for s in ex_summ if s["dropped"]),
+                                    "not_runnable_offline": sorted(s["label"] for s in ex_summ if s["outcome"] != "ok")})
+    ev = json.loads(open(files[0]).read().splitlines()[1])
+    rep.sample({"J_event": {k: ev[k] for k in ("f", "ip", "op", "d", "fd", "fp", "top")}})
+
+    # decoded bytecode of the generated programs against Compile(p)
+    ndiff = nnum = 0
+    for c, s in zip(cases, summ):
+        if s["outcome"] != "ok" or not s.get("decoded"):
+            continue
+        rep.add("bytecode_compared_with_Compile", 1)
+        diffs = compare_bytecode(c, cat_by_variant[c["variant"]], s)
+        if diffs:
+            ndiff += 1
+            nnum += 1 if diffs[0]["numbering_only"] else 0
+            if ndiff <= 3:
+                print("MODEL-DRIFT: property=C09 the bytecode of `%s` differs from Compile.tla%s: %s" % (
+                    c["stmts"][-1], " (constant numbering only)" if diffs[0]["numbering_only"] else "", json.dumps(diffs[0])[:500]))
+    rep.set("bytecode_differs_from_Compile", ndiff)
+    rep.set("bytecode_differs_in_constant_numbering_only", nnum)
+
+
+# ------------------------------------------------------------------------------------------------------ run
 def run(tier, seed):
     rep = nv.Report(PROP, tier, seed, "model_checking")
-    nv.build_harness(["nv-eval"])
+    nv.build_harness(["nv-eval", "nv-vm"])
     d = nv.scratch("c09")
-    cfg = os.path.join(nv.SPEC, "_gen_Eval_%d.cfg" % os.getpid())
+    cfg = os.path.join(nv.SPEC, "_gen_VM_%d.cfg" % os.getpid())
     with open(cfg, "w") as f:
-        f.write('CONSTANTS Tier = "%s"\nSPECIFICATION Spec\nINVARIANTS EvalTotal EmitCase\nCHECK_DEADLOCK FALSE\n' % tier)
+        f.write('CONSTANTS Tier = "%s"\nSPECIFICATION VSpec\n'
+                'INVARIANTS EvalTotalV JumpsAreForward RootReturnHeight FramesBalanced VmTotal VmAgrees EmitCaseV EmitCatCode\n'
+                'CHECK_DEADLOCK FALSE\n' % tier)
     try:
-        res = nv.tlc("MC_Eval", os.path.basename(cfg), workers=8, timeout=3000)
+        res = nv.tlc("MC_VM", os.path.basename(cfg), workers=8, timeout=3000, want_tags=("CASE", "VMDIFF", "CATCODE"))
     finally:
         os.remove(cfg)
     if res.violated:
         rep.violation({"kind": "spec-property", "property": res.violated, "tlc": res.stdout[-1500:]})
         return rep.finish()
-    rep.tlc_stats(res, "MC_Eval " + tier)
+    rep.tlc_stats(res, "MC_VM " + tier)
+    # MC: RunVM(Compile(p)) = Run(p) - the differences TLC found in the MODEL of the compiler + VM
+    for v in res.cases.get("VMDIFF", []):
+        rep.add("mc_model_vm_differs_from_eval", 1)
+        rep.violation({"kind": "model-vm-differs-from-eval", "final": v["stmts"][-1], "variant": v["variant"], "eval": v["res"], "vm_model": v["vm"],
+                       "halt": v["halt"], "program_tail": v["stmts"][-3:], "late_bound": is_late_bound(v["variant"], v["stmts"][-1])}, known_matcher)
+    cat_by_variant = {c["variant"]: c for c in res.cases.get("CATCODE", [])}
     seen, cases = set(), []
     for c in res.cases.get("CASE", []):
         key = "\n".join(c["stmts"])
         if key not in seen:
             seen.add(key)
             cases.append(c)
+    rep.set("mc_programs", len(cases))
+    rep.set("mc_vm_steps", sum(c["steps"] for c in cases))
+
+    # ---- G
     inp, out = os.path.join(d, "cases.ndjson"), os.path.join(d, "out.ndjson")
     nv.write_ndjson(inp, [{"id": i, "stmts": c["stmts"]} for i, c in enumerate(cases)])
     nv.harness("nv-eval", ["eval-run", "--cases", inp, "--out", out])
@@ -64,18 +264,24 @@ def run(tier, seed):
             continue
         if r["value"] != want:
             rep.violation({"kind": "value-differs", "final": final, "variant": c["variant"], "spec": want, "impl": r["value"],
-                           "program_tail": c["stmts"][-3:],
-                           # a function VALUE taken before its name was redefined, called afterwards
-                           "late_bound": c["variant"] in (2, 4) and "w_h" in final}, known_matcher)
+                           "program_tail": c["stmts"][-3:], "late_bound": is_late_bound(c["variant"], final)}, known_matcher)
     rep.add("distinct_nontrivial", len(cases) - kinds.get("int", 0) + sum(1 for c in cases if c["variant"] != 1 and c["res"]["k"] == "int"))
     rep.set("result_kinds", kinds)
     rep.add("traces_validated_against_impl", len(cases))
-    for c in cases[5:: max(1, len(cases) // 5)][:5]:
+    for c in cases[5:: max(1, len(cases) // 5)][:4]:
         rep.sample({"final_expression": c["stmts"][-1], "variant": c["variant"], "expected": c["res"]})
-    rep.set("rule", "catalogue of 15 definitions x 4 redefinition variants x generated final expressions of MC_Eval.tla (%s tier); "
-            "non-trivial = programs whose result is not a plain integer, or that run after a redefinition/shadowing variant" % tier)
+
+    # ---- J
+    j_stage(rep, tier, cases, cat_by_variant, d)
+
+    rep.set("rule", "catalogue of 15 definitions x 4 redefinition variants x generated final expressions / tails of MC_Eval.tla and "
+            "MC_VM.tla (%s tier); non-trivial = programs whose result is not a plain integer, or that run after a "
+            "redefinition/shadowing variant. evaluations = programs evaluated (G) + opcodes validated by Trace_VM (J)" % tier)
     rep.set("exhaustive", True)
-    rep.assumptions += ["scalar integer values (exact in f64); recursion depth <= 12"]
+    rep.assumptions += ["scalar integer values (exact in f64); recursion depth <= 12",
+                        "J: results of foreign functions, of arithmetic outside the integers below 10^4 and the values of stack slots "
+                        "of earlier inputs are taken from the trace; programs whose input failed cannot be decoded (the session rolls "
+                        "the program store back) and are validated by G only"]
     if not rep.violations:
         shutil.rmtree(d, ignore_errors=True)
     return rep.finish()
